@@ -264,7 +264,10 @@ class Mem:
         if k is not None:
             b = k % 8
             return f"((_ extract {b} {b}) {self.read(str(k // 8))})"
-        byte = self.read(f"(div {pos} 8)")
+        q, r = divmod8(pos)
+        byte = self.read(q)
+        if r is not None:
+            return f"((_ extract {r} {r}) {byte})"
         return f"((_ extract 0 0) (bvlshr {byte} ((_ int2bv 8) (mod {pos} 8))))"
 
 
@@ -427,6 +430,7 @@ class CContract:
     # setup(ex, args): run before `requires` (e.g. fix the shape of the object: array counts, union tags)
     setup: typing.Optional[typing.Callable[["Exec", typing.Dict[str, typing.Any]], None]] = None
     variant_label: str = ""
+    symbolic_pointer_offsets: bool = False
 
 
 class CallCx:
@@ -470,7 +474,7 @@ class CallCx:
     def abs_bit(self, name: str, bit_off: str) -> str:
         """absolute bit position inside the region of pointer `name` for a bit offset relative to the pointer"""
         p = self.args[name]
-        return app("+", app("*", "8", p.off), bit_off) if p.off != "0" else bit_off
+        return _fold(app("+", _fold(app("*", "8", p.off)), bit_off)) if p.off != "0" else bit_off
 
 
 # ------------------------------------------------------------------------------------------------
@@ -678,16 +682,19 @@ class Exec:
             return Val(v.ct, "I", f"(bv2nat {v.t})")
         raise COutOfSubset(f"to_int of {type(v).__name__}")
 
-    def small_split(self, t: str, limit: int = 64) -> typing.Optional[int]:
-        """If the Int term t is provably within [0, limit], enumerate its value (path split) and return it."""
+    def small_split(self, t: str, limit: int = 64, known_range: bool = False) -> typing.Optional[int]:
+        """If the Int term t is provably within [0, limit], enumerate its value (path split) and return it.
+        known_range: the caller has already established 0 <= t <= limit on this path."""
         k = lit_of(t)
         if k is not None:
             return k
         if t in self.known:
             return self.known[t]
-        hi = None
+        hi = limit if known_range else None
         m = re.fullmatch(r"\(mod (.+) (\d+)\)", t)
-        if m and int(m.group(2)) <= limit + 1:
+        if hi is not None:
+            pass
+        elif m and int(m.group(2)) <= limit + 1:
             hi = int(m.group(2)) - 1
         elif self.e.split_casts and self.implied(And(app("<=", "0", t), app("<=", t, str(limit)))):
             hi = limit
@@ -922,6 +929,8 @@ class Exec:
         return FVal(ct, b)
 
     def name_term(self, t: str, sort: str, hint: str) -> str:
+        if sort == "Int":
+            t = simp_int(t)
         if len(t) < 60:
             return t
         c = self.fresh(sort, hint)
@@ -1480,6 +1489,12 @@ class Exec:
         if op == "!":
             return self.from_cond(Not(self.nonzero(v)), ct)
         if op == "~":
+            k = lit_of(v.t) if isinstance(v, Val) else None
+            if k is not None:
+                r = (~k) % (1 << ct.width)
+                if ct.signed and r >= 1 << (ct.width - 1):
+                    r -= 1 << ct.width
+                return Val(ct, "I", int_lit(r))
             b = self.to_bv(v, ct.width)
             return Val(ct, "B", f"(bvnot {b.t})")
         if op == "-":
@@ -1570,6 +1585,12 @@ class Exec:
         assert ct is not None
         if op in ("+", "-", "*", "/", "%"):
             return self.arith(op, a, b, ct)
+        if op in ("&", "|", "^") and lit_of(a.t) is not None and lit_of(b.t) is not None:
+            x_, y_ = lit_of(a.t) % (1 << ct.width), lit_of(b.t) % (1 << ct.width)  # type: ignore
+            r = {"&": x_ & y_, "|": x_ | y_, "^": x_ ^ y_}[op]
+            if ct.signed and r >= 1 << (ct.width - 1):
+                r -= 1 << ct.width
+            return Val(ct, "I", int_lit(r))
         if op == "&" and (a.rep == "I" or b.rep == "I"):
             # x & ~(2^k - 1)  and  x & (2^k - 1) on non-negative integers stay in the integer domain
             for x_, m_ in ((a, b), (b, a)):
@@ -1578,8 +1599,14 @@ class Exec:
                     mk %= 1 << ct.width
                     low = (1 << ct.width) - mk
                     if mk + 1 > 0 and (mk + 1) & mk == 0:
+                        simp = simplify_mod_div("mod", x_.t, mk + 1)
+                        if simp is not None:
+                            return Val(ct, "I", simp)
                         return Val(ct, "I", _fold(app("mod", x_.t, str(mk + 1))))
                     if low > 0 and low & (low - 1) == 0:
+                        simp = simplify_mod_div("floor8", x_.t, low)
+                        if simp is not None:
+                            return Val(ct, "I", simp)
                         return Val(ct, "I", _fold(app("*", _fold(app("div", x_.t, str(low))), str(low))))
         if op in ("&", "|", "^"):
             x, y = self.to_bv(a, ct.width), self.to_bv(b, ct.width)
@@ -1638,7 +1665,11 @@ class Exec:
                             Ite(app(">", y.t, "0"), app("-", app("div", app("-", x.t), y.t)), app("div", app("-", x.t), app("-", y.t)))))
                 r = q if op == "/" else app("-", x.t, app("*", y.t, q))
             else:
-                r = app("div" if op == "/" else "mod", x.t, y.t)
+                r = None
+                if lit_of(y.t) == 8:
+                    r = simplify_mod_div("div" if op == "/" else "mod", x.t, 8)
+                if r is None:
+                    r = app("div" if op == "/" else "mod", x.t, y.t)
             return Val(ct, "I", _fold(r))
         r = _fold(app(op, x.t, y.t))
         k = lit_of(r)
@@ -1922,6 +1953,210 @@ def _fold(t: str) -> str:
     return t
 
 
+def _lin(e: typing.Any) -> typing.Optional[typing.Tuple[int, typing.Dict[str, int]]]:
+    """linear form (constant, {atom: coefficient}) of an Int s-expression built from + - * by literals"""
+    if isinstance(e, str):
+        try:
+            return (int(e), {})
+        except ValueError:
+            return (0, {e: 1})
+    if not e:
+        return None
+    op = e[0]
+    if op == "+":
+        c, m = 0, {}
+        for x in e[1:]:
+            r = _lin(x)
+            if r is None:
+                return None
+            c += r[0]
+            for k, v in r[1].items():
+                m[k] = m.get(k, 0) + v
+        return (c, m)
+    if op == "-" and len(e) == 2:
+        r = _lin(e[1])
+        return None if r is None else (-r[0], {k: -v for k, v in r[1].items()})
+    if op == "-":
+        r = _lin(e[1])
+        if r is None:
+            return None
+        c, m = r[0], dict(r[1])
+        for x in e[2:]:
+            q = _lin(x)
+            if q is None:
+                return None
+            c -= q[0]
+            for k, v in q[1].items():
+                m[k] = m.get(k, 0) - v
+        return (c, m)
+    if op == "*" and len(e) == 3:
+        a, b = _lin(e[1]), _lin(e[2])
+        if a is None or b is None:
+            return None
+        if not a[1]:
+            return (a[0] * b[0], {k: v * a[0] for k, v in b[1].items()})
+        if not b[1]:
+            return (a[0] * b[0], {k: v * b[0] for k, v in a[1].items()})
+        return None
+    return (0, {smt.sexpr_to_str(e): 1})
+
+
+def divmod8(term: str) -> typing.Tuple[str, typing.Optional[int]]:
+    """(term div 8 as a term, term mod 8 as a literal if it is one).  Bit offsets of the form c + 8*s keep a literal
+    bit-in-byte position, which keeps shifts literal."""
+    k = lit_of(term)
+    if k is not None:
+        return (str(k // 8), k % 8)
+    try:
+        e = smt.parse_sexprs(term)[0]
+        r = _lin(e)
+    except Exception:
+        r = None
+    if r is not None and all(v % 8 == 0 for v in r[1].values()) and all(v >= 0 for v in r[1].values()):
+        c, m = r
+        parts = [str(c // 8)] if c // 8 else []
+        for a, v in m.items():
+            parts.append(a if v == 8 else f"(* {v // 8} {a})")
+        q = parts[0] if len(parts) == 1 else ("(+ " + " ".join(parts) + ")" if parts else "0")
+        return (q, c % 8)
+    return (f"(div {term} 8)", None)
+
+
+LOWER: typing.Dict[str, int] = {}  # known lower bounds of integer symbols on the current verification variant
+
+
+def _lb(x: typing.Any) -> typing.Optional[int]:
+    """a lower bound of an evaluated integer s-expression, from LOWER (sums and products by non-negative literals)"""
+    if isinstance(x, bool):
+        return None
+    if isinstance(x, int):
+        return x
+    if isinstance(x, str):
+        return LOWER.get(x)
+    if isinstance(x, list) and x:
+        if x[0] == "+":
+            bs = [_lb(y) for y in x[1:]]
+            return None if any(b is None for b in bs) else sum(bs)  # type: ignore
+        if x[0] == "*" and len(x) == 3:
+            a, b = x[1], x[2]
+            if isinstance(a, int) and not isinstance(a, bool) and a >= 0:
+                lb = _lb(b)
+                return None if lb is None else a * lb
+            if isinstance(b, int) and not isinstance(b, bool) and b >= 0:
+                lb = _lb(a)
+                return None if lb is None else b * lb
+    return None
+
+
+def simp_int(term: str) -> str:
+    """evaluate closed integer/boolean sub-terms (literals only, plus comparisons decided by the known lower bounds
+    in LOWER); leaves everything else alone"""
+    if "(" not in term:
+        return term
+    try:
+        e = smt.parse_sexprs(term)[0]
+    except Exception:
+        return term
+
+    def ev(x: typing.Any) -> typing.Any:
+        if isinstance(x, str):
+            try:
+                return int(x)
+            except ValueError:
+                return {"true": True, "false": False}.get(x, x)
+        if not x:
+            return x
+        op = x[0]
+        if isinstance(op, list):
+            return [ev(y) if i else y for i, y in enumerate(x)]
+        args = [ev(y) for y in x[1:]]
+        lit = all(isinstance(a, int) and not isinstance(a, bool) for a in args)
+        blit = all(isinstance(a, bool) for a in args)
+        try:
+            if op == "-" and len(args) == 1 and lit:
+                return -args[0]
+            if lit and args:
+                if op == "+":
+                    return sum(args)
+                if op == "-":
+                    return args[0] - sum(args[1:])
+                if op == "*":
+                    r = 1
+                    for a in args:
+                        r *= a
+                    return r
+                if op == "div" and len(args) == 2 and args[1] > 0:
+                    return args[0] // args[1]
+                if op == "mod" and len(args) == 2 and args[1] > 0:
+                    return args[0] % args[1]
+                if op in ("<", "<=", ">", ">=", "=") and len(args) == 2:
+                    return {"<": args[0] < args[1], "<=": args[0] <= args[1], ">": args[0] > args[1], ">=": args[0] >= args[1], "=": args[0] == args[1]}[op]
+            if LOWER and op in ("<", "<=", ">", ">=") and len(args) == 2:
+                a, b = args
+                if op in (">", ">="):
+                    a, b, op2 = b, a, {">": "<", ">=": "<="}[op]
+                else:
+                    op2 = op
+                # a op2 b  with a literal and b bounded below
+                if isinstance(a, int) and not isinstance(a, bool):
+                    lb = _lb(b)
+                    if lb is not None and (a < lb if op2 == "<" else a <= lb):
+                        return True
+            if op == "not" and blit and args:
+                return not args[0]
+            if op == "and":
+                if any(a is False for a in args):
+                    return False
+                if blit:
+                    return True
+            if op == "or":
+                if any(a is True for a in args):
+                    return True
+                if blit:
+                    return False
+            if op == "ite" and len(args) == 3 and isinstance(args[0], bool):
+                return args[1] if args[0] else args[2]
+        except Exception:
+            pass
+        return [op] + args
+
+    def out(x: typing.Any) -> str:
+        if isinstance(x, bool):
+            return "true" if x else "false"
+        if isinstance(x, int):
+            return int_lit(x)
+        if isinstance(x, list):
+            return "(" + " ".join(out(y) for y in x) + ")"
+        return x
+
+    return out(ev(e))
+
+
+def ite_s(c: str, a: str, b: str) -> str:
+    c2 = simp_int(c)
+    if c2 == "true":
+        return a
+    if c2 == "false":
+        return b
+    return Ite(c2, a, b)
+
+
+def simplify_mod_div(op: str, x: str, k: int) -> typing.Optional[str]:
+    """x mod 8 / x div 8 / round-down-to-8 for terms of the form c + 8*s (literal bit-in-byte position)"""
+    if k != 8:
+        return None
+    q, r = divmod8(x)
+    if r is None:
+        return None
+    if op == "mod":
+        return str(r)
+    if op == "div":
+        return q
+    if op == "floor8":  # (x div 8) * 8
+        return _fold(app("-", x, str(r))) if r else x
+    return None
+
+
 def fp_bits_const(x: float, width: int) -> str:
     import struct
 
@@ -2080,7 +2315,13 @@ class CEngine:
                         ln = ex.fresh("Int", f"len.{nm}", model=True)
                         ex.assume(And(app("<=", "0", ln), app("<", ln, str(2 ** 61))))
                         r = ex.new_region(nm, ln, writable=not const)
-                        v = PVal(ct, r.name, "0")
+                        if c.symbolic_pointer_offsets:
+                            # the pointer may point anywhere into its object: contracts are pointer-relative
+                            po = ex.fresh("Int", f"ptroff.{nm}", model=True)
+                            ex.assume(And(app("<=", "0", po), app("<=", po, ln)))
+                            v = PVal(ct, r.name, po)
+                        else:
+                            v = PVal(ct, r.name, "0")
                 else:
                     raise COutOfSubset(f"parameter type {ct}")
                 ex.vars[p["id"]] = v
